@@ -34,6 +34,10 @@ def cases_c02(tier):
     n = 5 if tier == "thorough" else 4
     out = [[t, False] for t in R.trees(n)]
     out += [[t, True] for t in R.trees(3)]
+    # data edge cases on the small trees: ']' at the end of / ']]' inside CDATA-wrapped data, entity text that must
+    # come out still escaped whichever rendering is used
+    out += [[t, True] for t in R.trees(3 if tier == "thorough" else 2, datas=R.DATAS[2:])]
+    out += [[t, False] for t in R.trees(4 if tier == "thorough" else 3, datas=R.DATAS[2:])]
     return out
 
 
